@@ -1,12 +1,12 @@
 SPECIFICATION Spec
 CONSTANTS
-  Names <- NamesHist
+  Names <- NamesAlias
   DirNames <- DirsQuick
   MaxMembers = 2
-  GlobClasses <- HistClasses
-  MinReq = 2
+  GlobClasses <- AllClasses
+  MinReq = 1
   MaxReq = 2
-  AllowAlias = FALSE
+  AllowAlias = TRUE
   Emit = TRUE
 INVARIANTS Confined NeverHostile DistinctTargets ExactMatchesItself EmitScn
 CHECK_DEADLOCK FALSE
